@@ -29,6 +29,48 @@ def make_map(case, dt):
     return f
 
 
+def make_qmap(case, dt):
+    """the mixed-magnitude family of JacMaps.tla: g_i(x) = sum_j c_ij x_j / w_j + s_i x_n^5"""
+    m, n = case["m"], case["n"]
+    Cm = np.array([[((3 * i + 5 * j) % 7) - 3 for j in range(1, n + 1)] for i in range(1, m + 1)], dtype=dt)
+    w = np.array([v / 8.0 for v in case["W"]], dtype=dt)
+    sq = np.array([(i % 3) - 1 for i in range(1, m + 1)], dtype=dt)
+
+    def g(x):
+        return Cm @ (x / w) + sq * x[-1] ** 5
+    return g
+
+
+def qfd_job(job):
+    from desolver.utilities.utilities import JacobianWrapper
+    case, base, adaptive = job
+    dt = np.dtype("float64")
+    m, n = case["m"], case["n"]
+    g = make_qmap(case, dt)
+    x0 = np.asarray([v / 8.0 for v in case["X"]], dtype=dt)
+    out = {"kind": "fd", "m": m, "n": n, "lin": False, "X": case["X"], "dtype": "float64", "xshape": [n], "fshape": [m], "base": base, "adaptive": adaptive,
+           "family": "mixed-magnitude", "ran": False, "shapeOk": False, "units": []}
+    try:
+        kw = {} if base is None else {"base_order": base}
+        if not adaptive:
+            kw["adaptive"] = False
+        J = np.asarray(JacobianWrapper(g, **kw)(x0))
+        out["ran"] = True
+        out["shapeOk"] = bool(tuple(J.shape) == (m, n))
+        if out["shapeOk"]:
+            units = []
+            for i in range(m):
+                for j in range(n):
+                    want = Fraction(case["JNum"][i][j], case["JDen"][i][j])
+                    # every term of g is moderate at the point, so the error of a column is judged against the size of ITS entries
+                    allow = max(Fraction(1, 10 ** 4), abs(want)) * Fraction(1, 10 ** 4 if not adaptive else 10 ** 6)
+                    units.append(int(min(num.CAP, math.ceil(abs(num.frac(J[i, j]) - want) / allow))))
+            out["units"] = units
+    except Exception as e:      # noqa
+        out["error"] = "%s: %s" % (type(e).__name__, str(e)[:100])
+    return out
+
+
 def fd_job(job):
     from desolver.utilities.utilities import JacobianWrapper
     case, dtn, xshape_kind, fshape_kind, base = job[:5]
@@ -140,13 +182,15 @@ def check(run, replay=None):
                     jobs.append((c, dtn, xs, fs, base))
                 if dtn == "float64":
                     jobs.append((c, dtn, xs, fs, 4, False))       # non-adaptive extrapolation
-    obs = core.pool_map(fd_job, jobs) + core.pool_map(dispatch_job, hist, chunksize=50)
+    gen_out = core.generate("JacMaps", name="JacMaps_q", workers=2)[0]
+    qjobs = [(c, base, ad) for c in gen_out["qcases"] for (base, ad) in ((None, True), (4, False), (2, False), (3, False), (5, False), (5, True))]
+    obs = core.pool_map(fd_job, jobs) + core.pool_map(qfd_job, qjobs) + core.pool_map(dispatch_job, hist, chunksize=50)
     for k, o in enumerate(obs):
         o["id"] = k
         run.evaluations += 1
         if (o["kind"] == "fd" and not o["lin"]) or (o["kind"] == "dispatch" and len(o["expect"]) >= 2):
             run.nontrivial.add((o["kind"], k))
-    run.sample({"fd_case": obs[0], "dispatch_case": obs[len(jobs) + 100]})
+    run.sample({"fd_case": obs[0], "dispatch_case": obs[len(jobs) + len(qjobs) + 100]})
     defaults = {"ran": False, "shapeOk": True, "units": [], "got": [], "expect": [], "njev": 0, "nfevOk": True}
     payload = []
     for o in obs:
@@ -160,7 +204,7 @@ def check(run, replay=None):
             continue
         o = obs[b["id"]]
         if o["kind"] == "fd":
-            sig = "fd m=%d n=%d %s %s x%s f%s base=%s%s X=%s" % (o["m"], o["n"], "linear" if o["lin"] else "quadratic", o["dtype"], o["xshape"], o["fshape"], o["base"], "" if o.get("adaptive", True) else " non-adaptive", o["X"])
+            sig = "fd m=%d n=%d %s %s x%s f%s base=%s%s X=%s" % (o["m"], o["n"], o.get("family") or ("linear" if o["lin"] else "quadratic"), o["dtype"], o["xshape"], o["fshape"], o["base"], "" if o.get("adaptive", True) else " non-adaptive", o["X"])
             det = {"units": o["units"], "error": o.get("error"), "k": b.get("k")}
         else:
             sig = "dispatch attr=%s ops=%s" % (o["attr"], ",".join(o["ops"]))
